@@ -21,6 +21,7 @@ from checks.plist import IDX, INVROOT, EIGVEC
 PROP = "C13"
 LEVEL = "proof"
 FUNCS = [
+    ("matrix_functions.py", "_compute_orthogonal_iterations"),
     ("distributed_shampoo/utils/shampoo_preconditioner_list.py", "ShampooPreconditionerList._amortized_computation"),
     ("distributed_shampoo/utils/shampoo_preconditioner_list.py", "EigenvalueCorrectedShampooPreconditionerList._amortized_computation"),
     ("distributed_shampoo/utils/shampoo_preconditioner_list.py", "BaseShampooPreconditionerList._raise_exception_if_failure_tolerance_exceeded"),
@@ -50,6 +51,9 @@ def cases(tier):
     for kind in ("shampoo", "eig"):
         for m_old in itertools.product((0, 1), repeat=3):
             cs.append(f"mask/{kind}/{''.join(map(str, m_old))}")
+    # "keeps the last successfully computed matrix": the matrix routine must not write the stored eigenbasis it is given as the estimate
+    # (QR method, equal dtypes) — the loop contract of _compute_orthogonal_iterations (C12) with its frame obligation, re-discharged here
+    cs.append("contract/qr-loop")
     return cs
 
 
@@ -317,6 +321,9 @@ def _raise_before_params_case(case):
 
 
 def run_case(case, tier, seed):
+    if case == "contract/qr-loop":
+        from checks import mf
+        return mf.run_qr_loop(case)
     if case.startswith("faults/"):
         return _fault_case(case)
     if case.startswith("mask/"):
@@ -438,6 +445,10 @@ def replay(r):
 
 def replay_file(doc):
     rp = doc.get("replay_input") or {}
+    if rp.get("kind") in ("qr_frame", "eigvec"):
+        from checks import mf
+        bad = mf.native_qr_frame() or mf.native_qr_rule()
+        return bool(bad), bad or "the QR method does not write its inputs and follows the documented stopping rule"
     if rp.get("kind") == "native_fault":
         raised, expected = native_fault_run(rp["cls"], rp["tol"], rp["fail_plan"], rp["mask_plan"], rp["seed"])
         return raised != expected, f"tolerance {rp['tol']}: real optimizer raised at refresh {raised}, per-block rule says {expected}"
